@@ -17,7 +17,10 @@ From Coq Require Import ZArith List Bool.
 From Coq.Strings Require Import Byte.
 From Verif Require Import Lib.Bytes Gen.GenConsts Model.Wire Model.EvalLib Model.EvalCore Model.EvalSession
   Proofs.EvalNum Proofs.EvalOps Proofs.EvalRun Proofs.EvalRefute Proofs.EvalIf Proofs.EvalStd Proofs.EvalIfOpen
-  Proofs.EvalEnv Proofs.EvalSession.
+  Proofs.EvalEnv Proofs.EvalSession Gen.GenC19 Proofs.EvalFootprint.
+From Coq.Strings Require String.
+Import Coq.Strings.String.StringSyntax.
+Delimit Scope string_scope with string.
 Import ListNotations.
 Open Scope Z_scope.
 
@@ -1027,6 +1030,31 @@ Example session_replay_witness :
   [None; Some Valid; Some Invalid; None; Some Invalid; Some Valid; Some Valid; Some Valid].
 Proof. split; [exact demo_session_obs|exact demo_session_core]. Qed.
 
+(* the source side of the same obligation (Gen/GenC19.v is regenerated from bitcoinlib/scripts.py and keys.py on
+   every run): Script.evaluate, every Stack method, encode_num / decode_num and Signature.parse_bytes / verify use
+   no module-level or class-level mutable state and carry no memoising decorator; the only attributes written are
+   evaluate's message / env_data / stack (the three the session model carries) and, on the local Signature
+   object, txid / public_key; evaluate reads nothing of self beyond these and self.commands *)
+Theorem interpreter_touches_no_module_state :
+  c19_module_state_refs = [] /\ c19_class_state = [] /\ c19_decorators = [].
+Proof. exact footprint_no_module_state. Qed.
+
+Theorem interpreter_attribute_writes_are_frozen : c19_attr_writes = frozen_attr_writes.
+Proof. exact footprint_attr_writes. Qed.
+
+Theorem interpreter_self_reads_are_frozen : c19_self_reads = frozen_self_reads.
+Proof. exact footprint_self_reads. Qed.
+
+Example frozen_footprint_is :
+  frozen_attr_writes =
+  [("Script.evaluate"%string, "self.env_data"%string); ("Script.evaluate"%string, "self.message"%string);
+   ("Script.evaluate"%string, "self.stack"%string);
+   ("Signature.verify"%string, "self.public_key"%string); ("Signature.verify"%string, "self.txid"%string)] /\
+  frozen_self_reads =
+  [("Script.evaluate"%string, "commands"%string); ("Script.evaluate"%string, "env_data"%string);
+   ("Script.evaluate"%string, "message"%string); ("Script.evaluate"%string, "stack"%string)].
+Proof. split; reflexivity. Qed.
+
 Print Assumptions dispatch_is_core_opcode.
 Print Assumptions dispatchable_all_modelled.
 Print Assumptions dispatch_only_dispatchable.
@@ -1107,3 +1135,6 @@ Print Assumptions evaluation_session_is_map.
 Print Assumptions explicit_eval_ignores_history.
 Print Assumptions session_never_valid_when_core_rejects.
 Print Assumptions session_agrees_with_core.
+Print Assumptions interpreter_touches_no_module_state.
+Print Assumptions interpreter_attribute_writes_are_frozen.
+Print Assumptions interpreter_self_reads_are_frozen.
